@@ -122,6 +122,11 @@ public final class Prim {
         return le(nat(a).mod(nat(n)));
     }
 
+    @TLAPlusOperator(identifier = "BnDiv", module = "Prim", warn = false)
+    public static Value div(final Value a, final Value n) {
+        return le(nat(a).divide(nat(n)));
+    }
+
     @TLAPlusOperator(identifier = "BnCmp", module = "Prim", warn = false)
     public static Value cmp(final Value a, final Value b) {
         return IntValue.gen(nat(a).compareTo(nat(b)));
